@@ -118,7 +118,14 @@ def run(c):
         out = []
         for agg in aggl:
             cls = getattr(mod, prefix + agg)
-            out.append(cls(weights, None, ignore, float("nan")) if agg == "count" else cls(fact, weights, ignore, float("nan")))
+            if agg == "count":
+                out.append(cls(weights, None, ignore, float("nan")))
+            elif agg in ("max", "min"):
+                out.append(cls(fact, ignore, float("nan")))
+            elif agg == "quantile":
+                out.append(cls(fact, 0.5, weights, ignore, float("nan")))
+            else:
+                out.append(cls(fact, weights, ignore, float("nan")))
         return out
     try:
         serial = mkcube().calculate(mkfs())
